@@ -156,9 +156,17 @@ func (x *Ctx) DecodePt(pt *rlwe.Plaintext) (Vec, error) {
 		return nil, fmt.Errorf("LogDimensions.Cols=%d out of range", ls)
 	}
 	n := 1 << ls
-	if x.Ecd.Prec() <= 53 {
+	ecd := x.Ecd
+	if x.Params.RingType() == ring.ConjugateInvariant && ecd.Prec() > 53 {
+		// The arbitrary-precision decoder of the conjugate-invariant ring does not clear the imaginary parts of
+		// its internal buffer (C06 finding "decode/.../stale-imaginary-part", exercised by its own scenario):
+		// a decode depends on what the same Encoder decoded before. A ShallowCopy has fresh zero buffers and
+		// shares the (read-only) roots, so every decode here is a first decode.
+		ecd = ecd.ShallowCopy()
+	}
+	if ecd.Prec() <= 53 {
 		out := make([]complex128, n)
-		if err := x.Ecd.Decode(pt, out); err != nil {
+		if err := ecd.Decode(pt, out); err != nil {
 			return nil, err
 		}
 		v := make(Vec, n)
@@ -168,7 +176,7 @@ func (x *Ctx) DecodePt(pt *rlwe.Plaintext) (Vec, error) {
 		return v, nil
 	}
 	outB := make([]*bignum.Complex, n)
-	if err := x.Ecd.Decode(pt, outB); err != nil {
+	if err := ecd.Decode(pt, outB); err != nil {
 		return nil, err
 	}
 	v := make(Vec, n)
